@@ -385,6 +385,7 @@ class Evaluator(object):
 
     def ev_Call(self, node, path):
         fn = dotted(node.func)
+        fn0 = fn
         if isinstance(node.func, ast.Name) and isinstance(path.env.get(node.func.id), Rat):
             # a local name (typically a parameter of an inlined helper) bound to a bound method of self: `core = self._plot_core;
             # core(data)` is the call self._plot_core(data) - the event carries the callee, not the local spelling
@@ -392,6 +393,11 @@ class Evaluator(object):
             if fa is not None and not fa.args and fa.func.startswith("$" + self.selfname + ".") and fa.func.count(".") == 1 \
                     and fa.func != "$" + node.func.id:
                 fn = fa.func[1:]
+            elif fa is not None and not fa.args and fa.func.startswith("$") and "." in fa.func and fa.func != "$" + node.func.id:
+                # a local bound to a class or function of an imported module (a dispatch table of classes): cls = verif.field.Obs; cls()
+                head = fa.func[1:].split(".")[0]
+                if head in getattr(self.module, "aliases", {}) and head not in path.env:
+                    fn = fa.func[1:]
         rname = self.module.resolve(fn) if fn else None
         args = []
         for a in node.args:
@@ -445,6 +451,12 @@ class Evaluator(object):
             return Rat.const(len(args[0]))
         if rname in ("list", "set") and not args and not kwargs:
             return []
+        if rname == "list" and len(args) == 1 and not kwargs and self.loop_mode == "unroll2" and isinstance(args[0], Rat):
+            # list(X) of a sequence that is only known symbolically (a parameter): the same two generic elements an appending loop
+            # `for x in X: L.append(x)` produces when it is unrolled twice
+            a0 = args[0].as_atom()
+            if a0 is not None and ((a0.func.startswith("$") and not a0.args and "." not in a0.func) or a0.func == "ifexp"):
+                return [form.apply("elem#1", [args[0]]), form.apply("elem#2", [args[0]])]
         if isinstance(node.func, ast.Attribute) and node.func.attr in ("append", "add") and len(args) == 1:
             tgt = dotted(node.func.value)
             if tgt is not None and isinstance(path.env.get(tgt), list) and isinstance(args[0], Rat):
@@ -493,7 +505,7 @@ class Evaluator(object):
         flat = []
         for a in args:
             flat.append(tuple(a) if isinstance(a, list) else a)
-        if isinstance(node.func, ast.Name) and isinstance(path.env.get(node.func.id), Rat) and path.env[node.func.id].key() != "$" + node.func.id:
+        if fn == fn0 and isinstance(node.func, ast.Name) and isinstance(path.env.get(node.func.id), Rat) and path.env[node.func.id].key() != "$" + node.func.id:
             fv0 = path.env[node.func.id]
             seen_through = self._call_method_value(fv0, node, args, kwargs, path)
             if seen_through is not None:
@@ -536,6 +548,132 @@ class Evaluator(object):
             r = self._inline_unknown(node, fn2, None, args, kwargs, path)
             return r if isinstance(r, Rat) else None
         return None
+
+    def _is_small_known_list(self, st, path):
+        """A `for` over a literal table - [(Obs(), "obs"), (Fcst(), "fcst")], [a, b, c] - is run element by element whatever the loop mode."""
+        if st.orelse or not isinstance(st.iter, (ast.List, ast.Tuple, ast.Name)):
+            return False
+        rec = self.record
+        self.record = False
+        try:
+            it = self.ev(st.iter, path)
+        except Undecided:
+            return False
+        finally:
+            self.record = rec
+        if not isinstance(it, list) or not it or len(it) > 8:
+            return False
+        if isinstance(st.target, ast.Tuple):
+            return all(isinstance(x, list) and len(x) == len(st.target.elts) and all(isinstance(y, Rat) for y in x) for x in it) \
+                and all(isinstance(e_, ast.Name) for e_ in st.target.elts)
+        return isinstance(st.target, ast.Name) and len(it) <= 6 and all(isinstance(x, Rat) for x in it)
+
+    def _inline_generator_loop(self, st, path):
+        """for X in gen(args): BODY   where gen is a generator function of the program that tables/known_methods.json does not list
+        (a helper introduced by a refactoring) is the generator's body with every `yield v` replaced by `X = v; BODY` - provided the
+        generator has no `return`, BODY has no break / continue / return of its own loop level, and there is no recursion.  The
+        generator's locals are renamed so that they cannot capture the caller's.  Returns the statement list, or None."""
+        prog = PROGRAM
+        fn = dotted(st.iter.func)
+        if prog is None or fn is None or self.inline_depth <= 0 or not hasattr(self.module, "functions"):
+            return None
+        known = _known()
+        fdef, bound_self = None, False
+        parts = fn.split(".")
+        mn = getattr(self.module, "name", None)
+        if len(parts) == 1 and parts[0] in self.module.functions and parts[0] not in known["functions"].get(mn, [parts[0]]):
+            fdef = self.module.functions[parts[0]]
+        elif len(parts) == 2 and parts[0] == self.selfname and self.cls is not None:
+            hit = prog.lookup_method(self.cls, parts[1])
+            if hit is not None and parts[1] not in known["classes"].get(hit[0].qual, [parts[1]]):
+                fdef, bound_self = hit[1], True
+        if fdef is None or not _has_yield(fdef) or fdef.args.vararg or fdef.args.kwarg or fdef.args.kwonlyargs:
+            return None
+        if any(isinstance(n, (ast.Return, ast.YieldFrom, ast.Global, ast.Nonlocal, ast.FunctionDef, ast.Lambda)) for n in ast.walk(fdef) if n is not fdef):
+            return None
+        if any(isinstance(n, ast.Yield) and n.value is None for n in ast.walk(fdef)):
+            return None
+
+        def escapes(stmts, depth=0):
+            for x in stmts:
+                if isinstance(x, ast.Return):
+                    return True
+                if isinstance(x, (ast.Break, ast.Continue)) and depth == 0:
+                    return True
+                for fld in ("body", "orelse", "finalbody"):
+                    sub = getattr(x, fld, None)
+                    if isinstance(sub, list) and sub and isinstance(sub[0], ast.stmt):
+                        if escapes(sub, depth + (1 if isinstance(x, (ast.For, ast.While)) else 0)):
+                            return True
+                for h in getattr(x, "handlers", []) or []:
+                    if escapes(h.body, depth):
+                        return True
+            return False
+        if escapes(st.body):
+            return None
+        params = [a.arg for a in fdef.args.args]
+        decos = [dotted(d) for d in fdef.decorator_list]
+        if bound_self and params and "staticmethod" not in decos:
+            params = params[1:]
+        elif params and params[0] in ("self", "cls") and "staticmethod" not in decos:
+            return None
+        if len(st.iter.args) > len(params) or any(isinstance(a, ast.Starred) for a in st.iter.args) or any(k.arg is None for k in st.iter.keywords):
+            return None
+        self._gen_ordinal = getattr(self, "_gen_ordinal", 0) + 1
+        prefix = "_g%d_" % self._gen_ordinal
+        local_names = set(params) | set(n.id for n in ast.walk(fdef) if isinstance(n, ast.Name) and isinstance(n.ctx, ast.Store))
+        if bound_self:
+            local_names.discard(self.selfname)
+
+        class Ren(ast.NodeTransformer):
+            def visit_Name(self_, n):
+                if n.id in local_names:
+                    return ast.copy_location(ast.Name(id=prefix + n.id, ctx=n.ctx), n)
+                return n
+        import copy as _copy
+        body = [Ren().visit(_copy.deepcopy(x)) for x in fdef.body
+                if not (isinstance(x, ast.Expr) and isinstance(x.value, ast.Constant) and isinstance(x.value.value, str))]
+        pre = []
+        given = {}
+        for p_, a in zip(params, st.iter.args):
+            given[p_] = a
+        for k in st.iter.keywords:
+            if k.arg not in params or k.arg in given:
+                return None
+            given[k.arg] = k.value
+        defaults = dict(zip(params[len(params) - len(fdef.args.defaults):], fdef.args.defaults))
+        for p_ in params:
+            v = given.get(p_, defaults.get(p_))
+            if v is None:
+                return None
+            pre.append(ast.copy_location(ast.Assign(targets=[ast.Name(id=prefix + p_, ctx=ast.Store())], value=v, lineno=st.lineno, col_offset=0), st))
+
+        ok = [True]
+
+        def subst_yield(stmts):
+            out = []
+            for x in stmts:
+                if isinstance(x, ast.Expr) and isinstance(x.value, ast.Yield):
+                    out.append(ast.copy_location(ast.Assign(targets=[_copy.deepcopy(st.target)], value=x.value.value, lineno=x.lineno, col_offset=0), x))
+                    out.extend(st.body)
+                    continue
+                if any(isinstance(n, ast.Yield) for n in ast.walk(x)):
+                    if not isinstance(x, (ast.For, ast.While, ast.If, ast.With, ast.Try)):
+                        ok[0] = False          # `v = yield ...`, yield inside an expression
+                        continue
+                    x = _copy.copy(x)
+                    for fld in ("body", "orelse", "finalbody"):
+                        sub = getattr(x, fld, None)
+                        if isinstance(sub, list) and sub and isinstance(sub[0], ast.stmt):
+                            setattr(x, fld, subst_yield(sub))
+                out.append(x)
+            return out
+        new_body = subst_yield(body)
+        if not ok[0]:
+            return None
+        for x in pre + new_body:
+            ast.fix_missing_locations(x)
+        return pre + new_body
 
     def _inline_unknown(self, node, fn, rname, args, kwargs, path):
         """A call to a helper of verif/scripts that tables/known_methods.json does not list (introduced after the rules were
@@ -982,7 +1120,11 @@ class Evaluator(object):
                                 nxt.append(q_)
                     live = nxt
                 return live + done
-        if isinstance(st, ast.For) and self.loop_mode in ("body_once", "unroll2"):
+        if isinstance(st, ast.For) and self.loop_mode in ("body_once", "unroll2") and isinstance(st.iter, ast.Call) and not st.orelse:
+            inl = self._inline_generator_loop(st, path)
+            if inl is not None:
+                return self.exec_block(inl, [path])
+        if isinstance(st, ast.For) and (self.loop_mode in ("body_once", "unroll2") or self._is_small_known_list(st, path)):
             it = self.ev(st.iter, path)
             cr = _const_range(it) if isinstance(st.target, ast.Name) else None
             if cr is not None:
@@ -1020,6 +1162,8 @@ class Evaluator(object):
                     self.iter_tag.pop()
                 self.loop_stack.pop()
                 return live + done
+            if self.loop_mode not in ("body_once", "unroll2"):
+                raise Undecided("loop at line %d" % st.lineno)
             self.loops.append({"node": st, "iter": it, "path": path, "conds": list(path.conds), "depth": len(self.loop_stack)})
             n_iter = 2 if self.loop_mode == "unroll2" else 1
             live = [path]
@@ -1258,6 +1402,10 @@ def _loop_value(st, it, tag=""):
         return [idx, form.apply("elem" + tag, [at.args[0]])]
     if at is not None and at.func == "call:zip" and isinstance(st.target, (ast.Tuple, ast.List)) and len(st.target.elts) == len(at.args) \
             and all(isinstance(a, Rat) for a in at.args) and all(isinstance(e_, ast.Name) for e_ in st.target.elts):
+        pair = _consecutive_pairs(at)
+        if pair is not None:
+            ix = Rat.sym("i" + tag)
+            return [form.apply("getitem", [pair, ix]), form.apply("getitem", [pair, ix + Rat.const(1)])]
         return [form.apply("elem" + tag, [a]) for a in at.args]
     if at is not None and at.func == "map" and len(at.args) == 2 and isinstance(st.target, (ast.Tuple, ast.List)) \
             and isinstance(at.args[0], Rat) and isinstance(at.args[1], Rat):
@@ -1275,6 +1423,35 @@ def _loop_value(st, it, tag=""):
     if at is not None and at.func != "call:range" and isinstance(st.target, ast.Name):
         return form.apply("elem" + tag, [it])
     return mk(st.target)
+
+
+def _consecutive_pairs(zip_atom):
+    """zip(X[:-1], X[1:]) -> X (the loop visits the consecutive pairs (X[i], X[i+1]), i in range(len(X) - 1)); else None."""
+    if len(zip_atom.args) != 2:
+        return None
+    a, b = zip_atom.args
+    ga, gb = a.as_atom("getitem"), b.as_atom("getitem")
+    if ga is None or gb is None or len(ga.args) != 2 or len(gb.args) != 2 or not isinstance(ga.args[0], Rat) or not isinstance(gb.args[0], Rat):
+        return None
+    if not ga.args[0].equals(gb.args[0]):
+        return None
+
+    def sl(x):
+        if isinstance(x, tuple) and len(x) == 4 and x[0] == "slice":
+            return tuple((y.const_value() if isinstance(y, Rat) and y.const_value() is not None else (None if (y == "None" or (isinstance(y, Rat) and y.key() == "$None")) else "?")) for y in x[1:])
+        return None
+    if sl(ga.args[1]) == (None, -1, None) and sl(gb.args[1]) == (1, None, None):
+        return ga.args[0]
+    return None
+
+
+def consecutive_pair_space(it):
+    """The iteration space of `zip(X[:-1], X[1:])` as range(len(X) - 1), else `it` unchanged."""
+    at = it.as_atom("call:zip") if isinstance(it, Rat) else None
+    x = _consecutive_pairs(at) if at is not None else None
+    if x is None:
+        return it
+    return form.apply("call:range", [form.apply("len", [x]) - Rat.const(1)])
 
 
 def _loop_value_comp(target, seq):
